@@ -153,6 +153,24 @@ def run(ctx):
                 run.instance(R3, {"fn": "try_decrypt_payload", "obligation": "self.%s assigned only after age decrypt Ok" % ".".join(path)}, held=h)
                 if not h:
                     run.finding(Finding(R3, DEC, "self.%s written without a successful age decryption" % ".".join(path), site=d.loc()))
+            # provenance: what is written back is exactly what was decrypted, nothing from the clear-text envelope
+            EM = c.LW + "slatepack::types::SlatepackEncMetadata"
+            SPK = c.LW + "slatepack::types::Slatepack"
+            want = {
+                "payload": lambda pr: any(x[0] == "call" and x[1].endswith("::split_off") for x in pr),
+                "sender": lambda pr: ("field", EM, "sender") in pr and any(x[0] == "call" and x[1].endswith("byte_ser::from_bytes") for x in pr),
+                "recipients": lambda pr: ("field", EM, "recipients") in pr and any(x[0] == "call" and x[1].endswith("byte_ser::from_bytes") for x in pr),
+            }
+            for path, key in ((["payload"], "payload"), (["sender"], "sender"), (["encrypted_meta", "recipients"], "recipients")):
+                for b, st in assigns(d, path):
+                    r = st["r"]
+                    pr = vf.producers(d, r["o"]) if r["k"] == "use" else set([("complex", r["k"], "")])
+                    envelope = [x for x in pr if x[0] == "field" and x[1] == SPK]
+                    other_calls = [x for x in pr if x[0] == "call" and not (x[1].endswith("::split_off") or x[1].endswith("byte_ser::from_bytes"))]
+                    h = want[key](pr) and not envelope and not other_calls and not any(x[0] in ("complex", "arg", "const") for x in pr)
+                    run.instance(R3, {"fn": "try_decrypt_payload", "obligation": "self.%s := the decrypted value only (no clear-text envelope field, no other source)" % ".".join(path), "producers": sorted(map(str, pr))[:6]}, held=h)
+                    if not h:
+                        run.finding(Finding(R3, DEC, "self.%s after decryption does not come solely from the decrypted data" % ".".join(path), site=c.site_of(d, b), detail=str(sorted(map(str, pr)))[:300]))
             if rd:
                 re_ = set()
                 for b, _t in rd:
@@ -167,7 +185,8 @@ def run(ctx):
     pk = c.LW + "slatepack::packer::Slatepacker::<'a>::deser_slatepack"
     pf = ctx.fn(pk)
     if pf:
-        dp = [p[0] for n, p, a in pf.vars if n == "decrypt" and a > 0]
+        dpp = c.param(pf, "decrypt", "bool")
+        dp = [dpp] if dpp is not None else []
         if not dp:
             run.error("C10.R3: parameter `decrypt` of deser_slatepack not found")
         else:
